@@ -13,7 +13,7 @@ cd $WT || exit 2
 LOG=$DST/confirm.log
 : > $LOG
 # make sure the tree is clean then apply the patch
-git stash -u -q 2>/dev/null; git checkout -q -- . ; git clean -fdq -e target -e Cargo.lock
+git checkout -q -- . ; git clean -fdq -e target -e Cargo.lock
 cp /repo/Cargo.lock Cargo.lock 2>/dev/null
 git apply $OUT/patch.diff || { echo "PATCH DOES NOT APPLY" | tee -a $LOG; exit 1; }
 run_demo() {
